@@ -449,7 +449,13 @@ def checkBufferSharing (m : Model) (res : List (String × CReq)) : PyM Unit := d
   for e in bufferToTensors m do
     match e.2 with
     | [] => pure ()
-    | [_] => pure ()
+    | [only] =>
+      -- repair D31: a constant read by one op may have a second reader, the graph output: one copy of the data, one storage format
+      match m.buffers[e.1]? with
+      | some (some _) =>
+        let p ← (match Py.dictGet? res only with | some r => pure r | none => throw PyErr.keyError)
+        if !(← compatReq p p) then throw .runtimeError
+      | _ => pure ()
     | first :: rest =>
       match m.buffers[e.1]? with
       | some (some _) =>
